@@ -54,11 +54,11 @@ def opt(ex, name, present=None):
     return W(ex.real(name)) if present else None
 
 
-def mkp(ex, tag, src, prio, ct=0.0, shape=None):
+def mkp(ex, tag, src, prio, ct=0.0, shape=None, ids=None):
     """shape None: every None pattern (symbolic flags); else a string out of 'plu' naming the fields that are present."""
     pr = (lambda c: None) if shape is None else (lambda c: c in shape)
     return Proposal(source_id=src, preferred_power=opt(ex, "p" + tag, pr("p")), bounds=Bounds(opt(ex, "l" + tag, pr("l")), opt(ex, "u" + tag, pr("u"))),
-                    component_ids=IDS, priority=prio, creation_time=ct, set_operating_point=False)
+                    component_ids=ids or IDS, priority=prio, creation_time=ct, set_operating_point=False)
 
 
 def envelope_ok(t, il, iu, el, eu):
@@ -156,6 +156,41 @@ def make_history(order, shapes, eq_prio=False, expiry=True):
     return fn
 
 
+IDS2 = frozenset({3, 4})
+
+
+def make_two_groups(shapes):
+    """One Matryoshka serving two component groups.  Actor A (priority 2) has a proposal in both groups (separate creation times), actor B
+    (priority 1) in the second group only.  After the expiry sweep each group's target must equal that of a fresh instance fed only that
+    group's surviving proposals: the groups are independent."""
+    shapes = dict(shapes)
+
+    def fn(ex):
+        sb, (il, iu, el, eu) = sysbounds(ex)
+        ct = {k: ex.real("ct" + k) for k in ("A1", "A2", "B2")}
+        now = ex.real("now")
+        for v in ct.values():
+            ex.assume(z3.And(E(v) >= 0, E(now) >= E(v)))
+        props = {"A1": mkp(ex, "A1", "A", 2, ct["A1"], shapes.get("A"), IDS), "A2": mkp(ex, "A2", "A", 2, ct["A2"], shapes.get("A"), IDS2),
+                 "B2": mkp(ex, "B2", "B", 1, ct["B2"], shapes.get("B"), IDS2)}
+        m = Matryoshka(max_proposal_age=timedelta(seconds=60))
+        for k in ("A1", "A2", "B2"):
+            m.calculate_target_power(props[k].component_ids, props[k], sb, True)
+        m.drop_old_proposals(now)
+        for ids, keys in ((IDS, ("A1",)), (IDS2, ("A2", "B2"))):
+            t = m.calculate_target_power(ids, None, sb, True)
+            fresh = Matryoshka(max_proposal_age=timedelta(seconds=60))
+            exp = Power.zero()
+            for k in keys:
+                if ex.branch(E(now) - E(ct[k]) <= 60):
+                    exp = fresh.calculate_target_power(ids, props[k], sb, True)
+            if t is None:
+                ex.check(False, "no target returned after expiry although must_return_power=True")
+                continue
+            ex.check(E(t.as_watts()) == E(exp.as_watts()), f"group {sorted(ids)}: target after the sweep differs from a fresh instance fed the group's live proposals")
+    return fn
+
+
 def make_perm3(perm):
     """Three live proposals (distinct priorities) arriving in order `perm`; compare with canonical order."""
     def fn(ex):
@@ -192,6 +227,7 @@ def instances(tier):
         I("order-BA-typ", "make_history", (("B", "A"), typ, False, False), "arrival order B,A vs A,B; A bounds only, B preference only", budget_s=120),
         I("replace-A0AB-typ", "make_history", (("A0", "A", "B"), typ, False, False), "A replaced once (old one fully specified)", budget_s=120),
         I("replace-BB0-typ", "make_history", (("B0", "A", "B"), typ, False, False), "B replaced once", budget_s=120),
+        I("expiry-two-groups", "make_two_groups", (typ,), "two component groups in one Matryoshka, the same actor in both, symbolic creation times and sweep time", budget_s=200),
         I("expiry-AB-typ", "make_history", (("A", "B"), typ, False, True), "symbolic creation times and loop time", budget_s=120),
         I("order-BA-eqprio-pp", "make_history", (("B", "A"), _sh(A="p", B="p"), True, False),
           "equal priorities, two preferences, source ids colliding in the bucket's hash table, arrival order B,A vs A,B", budget_s=120),
